@@ -34,13 +34,20 @@ func init() {
 			need(m, &out, "split_pointer_only_first_chunk", 20)
 			need(m, &out, "multi_section_units", 100)
 			need(m, &out, "exhaustive_split_streams", 1000)
+			need(m, &out, "long_streams", 6)
+			need(m, &out, "streams_in_larger_framing", 100)
 			return out
 		},
 	})
 }
 
 // checkStreamDelivery judges one demuxer run against the model (C02's oracle, reused by other properties).
+// pktSizeOf tells the framing the run used (set by the caller through run.PacketSize; 188 by default).
 func checkStreamDelivery(c *mon.Ctx, prop, stage string, idx int64, s *gen.Stream, m *gen.Model, run *DemuxRun, timing bool) bool {
+	psz := 188
+	if run.PacketSize > 0 {
+		psz = run.PacketSize
+	}
 	data := map[string]any{"stream": mon.Hex(s.Bytes, 3000), "packets": len(s.Packets)}
 	ok := true
 	bad := func(class, detail string) {
@@ -109,7 +116,7 @@ func checkStreamDelivery(c *mon.Ctx, prop, stage string, idx int64, s *gen.Strea
 			}
 		}
 		if timing {
-			endOff := (e.u.LastPkt + 1) * 188
+			endOff := (e.u.LastPkt + 1) * psz
 			if m != nil && m.Early[d.PID] {
 				c.Count("readahead_checks")
 				if it.Pos != endOff {
@@ -126,8 +133,8 @@ func checkStreamDelivery(c *mon.Ctx, prop, stage string, idx int64, s *gen.Strea
 				}
 				if next >= 0 {
 					c.Count("late_delivery_checks")
-					if it.Pos > (next+1)*188 {
-						bad("unit-delivered-late", fmt.Sprintf("pid %#x unit %d returned with the reader at %d; the next unit of the PID starts in the packet ending at %d", d.PID, e.u.Serial, it.Pos, (next+1)*188))
+					if it.Pos > (next+1)*psz {
+						bad("unit-delivered-late", fmt.Sprintf("pid %#x unit %d returned with the reader at %d; the next unit of the PID starts in the packet ending at %d", d.PID, e.u.Serial, it.Pos, (next+1)*psz))
 					}
 				}
 			}
@@ -234,9 +241,19 @@ func runC02(c *mon.Ctx) {
 			continue
 		}
 		r := c.Rng("streams", i)
-		m := gen.RandomModel(r, gen.ModelOpts{MaxPES: 3, MaxPMT: 3, MaxSI: 3, MaxUnits: 4, ReservedRnd: true})
+		m := gen.RandomModel(r, gen.ModelOpts{MaxPES: 3, MaxPMT: 3, MaxSI: 3, MaxUnits: 4, ReservedRnd: true, RichAF: i%3 == 0})
 		s := m.Build(r)
-		run := RunDemux(s.Bytes, baseCfg("data"))
+		var run *DemuxRun
+		if i%4 == 3 {
+			// the same packets in the 188+k framing (explicit size)
+			k := []int{4, 16, 1 + r.IntN(60)}[r.IntN(3)]
+			ex := gen.Bytes(r, k)
+			run = RunDemux(refts.Reframe(s.Bytes, k, func(p, j int) byte { return ex[j] ^ byte(p) }), DemuxCfg{PacketSize: 188 + k, Reader: "seek", API: "data"})
+			run.PacketSize = 188 + k
+			c.Count("streams_in_larger_framing")
+		} else {
+			run = RunDemux(s.Bytes, baseCfg("data"))
+		}
 		checkStreamDelivery(c, "C02", "streams", i, s, m, run, true)
 		countSplits(c, s, m)
 		c.Seen("pid_counts", fmt.Sprint(len(m.PIDs)))
@@ -245,6 +262,28 @@ func runC02(c *mon.Ctx) {
 		if i < 2 {
 			c.Sample("streams", map[string]any{"pids": m.PIDs, "units": len(s.Units), "packets": len(s.Packets), "head": mon.Hex(s.Bytes, 64)})
 		}
+	}
+	// long streams: thousands of packets, continuity counters wrapping many times, many units per PID
+	nlong := c.Pick(6, 80)
+	for i := int64(0); i < nlong; i++ {
+		if !c.Mine("long", i) {
+			continue
+		}
+		r := c.Rng("long", i)
+		var s *gen.Stream
+		var m *gen.Model
+		for {
+			m = gen.RandomModel(r, gen.ModelOpts{MaxPES: 3, MaxPMT: 2, MaxSI: 2, MaxUnits: 60, MaxPESLen: 7000, RichAF: true})
+			s = m.Build(r)
+			if len(s.Packets) >= 1500 {
+				break
+			}
+		}
+		run := RunDemux(s.Bytes, baseCfg("data"))
+		checkStreamDelivery(c, "C02", "long", i, s, m, run, true)
+		c.Count("long_streams")
+		c.Max("long_stream_packets", int64(len(s.Packets)))
+		c.Case(mon.HashBytes("c02long", s.Bytes[:3760]), true)
 	}
 	// exhaustive cuts: every first-chunk size and every last-chunk size of one unit inside a small context
 	ne := c.Pick(120, 2500)
